@@ -48,6 +48,7 @@ def build_files(L, P, nb, na, tolerant, slow, late=None):
 def cycle_case(item):
     L, P, nb, na, entries, j, tolerant, rerun, slow = item[:9]
     late = item[9] if len(item) > 9 else None
+    keep = bool(item[10]) if len(item) > 10 else False
     files, cyc, pre = build_files(L, P, nb, na, tolerant, slow, late)
     # prefix chain p0 -> p1 -> ... -> entry node(s)
     ent = [cyc[e % L] for e in entries]
@@ -88,14 +89,16 @@ def cycle_case(item):
     try:
         for attempt in range(2 if rerun else 1):
             open(pj.trace, 'w').close()
+            kx = dict(REDO_KEEP_GOING='1') if keep else None
             if j > 1:
-                r, _ = pj.run(['redo', '-j%d' % j] + top, timeout=40, stuck_after=4.0)
+                r, _ = pj.run(['redo'] + (['-k'] if keep else []) + ['-j%d' % j] + top, timeout=40, stuck_after=4.0)
             else:
-                r, _ = pj.run(['redo-ifchange'] + top, timeout=40, stuck_after=4.0)
+                r, _ = pj.run(['redo-ifchange'] + top, timeout=40, stuck_after=4.0, extra=kx)
             obs['cycle_runs'] += 1
+            obs['cycle_runs_keep_going'] = obs.get('cycle_runs_keep_going', 0) + (1 if keep else 0)
             tr = pj.trace_text()
             rcs = re.findall(r'^RC \S+ \d+ (\d+)', tr, re.M)
-            where = ('multi-entry' if multi else 'single-entry') + (':cycle-closed-after-a-build:%s' % late if late else '')
+            where = ('multi-entry' if multi else 'single-entry') + (':cycle-closed-after-a-build:%s' % late if late else '') + (':keep-going' if keep and not multi else '')
             phase = 'rerun' if attempt else 'first'
             if r.status == 'timeout':
                 return dict(verdict='inconclusive', why='watchdog without stuck witness: %s' % (r.witness,), sample=dict(item=list(item)))
@@ -146,6 +149,16 @@ def items(tier):
             for P in (0, 1):
                 for j in (1, 4):
                     out.append((L, P, 0, 0, (0,), j, True, True, False))
+    # --keep-going must not turn the cycle into a success (or into a hang): strict scripts, every entry point
+    for L in ((2, 3) if quick else (1, 2, 3, 4, 5)):
+        for P in ((0, 1) if quick else (0, 1, 2)):
+            for (nb, na) in (((0, 0), (1, 1)) if quick else ((0, 0), (1, 0), (0, 2), (2, 1))):
+                for e in range(L if not quick else min(L, 2)):
+                    for j in (1, 3):
+                        out.append((L, P, nb, na, (e,), j, False, False, False, None, True))
+    for late in ('plain', 'stamp'):
+        for j in (1, 4):
+            out.append((3, 1, 0, 0, (0,), j, False, False, False, late, True))
     # long rings (file ids of mixed decimal length in the inherited chain), entered directly and through a prefix
     for L in ((7, 9, 12) if quick else (7, 8, 9, 10, 12, 15)):
         for P in ((0, 2) if quick else (0, 1, 2, 3)):
@@ -176,7 +189,7 @@ def items(tier):
 
 RULE = ('cycles of length 1..6 (and rings of 7-15) reached through an acyclic prefix of length 0..3, with 0-2 acyclic siblings before/after the cyclic dependency '
         'in the same redo-ifchange list, every node of the cycle as entry point, -j1 (redo-ifchange) and -j4 (redo -j4), strict and '
-        'failure-ignoring scripts, first build and re-run (recorded-graph check); cycles closed by an edit after a successful build (closing node plain, '
+        'failure-ignoring scripts, first build and re-run (recorded-graph check), with and without --keep-going (flag for redo, REDO_KEEP_GOING for redo-ifchange); cycles closed by an edit after a successful build (closing node plain, '
         'checksummed, always), also after a history that gives cycle members smaller file ids than their ancestors; plus entry at two nodes at once. Oracle: not stuck '
         '(two quiescent /proc samples with everyone blocked = violation; watchdog alone = inconclusive), no abort, non-zero top-level status '
         'for strict scripts, and exit status 208 / a cyclic-dependency message at the detecting process. Every case is non-trivial; '
